@@ -26,7 +26,7 @@ TOP = {
              "v2": {"title": "Base Two", "version": "2.0", "description": "second", "contact": {"name": "c"}}},
     "servers": {"v1": [{"url": "https://a.example"}],
                 "v2": [{"url": "https://a.example"}, {"url": "https://b.example", "description": "b"}]},
-    "security": {"v1": [{"key": []}]},
+    "security": {"v1": [{"key": []}, {}]},          # the empty requirement (authentication optional) is an entry like any other
     "tags": {"v1": [{"name": "t1", "description": "tag one"}]},
     "externalDocs": {"v1": {"url": "https://docs.example", "description": "docs"}},
     "extensions": {"v1": {"x-base": {"a": 1, "b": ["c"]}}},
